@@ -196,7 +196,10 @@ def build_harness(variant='release'):
             dst = os.path.join(d, 'src', f)
             if not os.path.exists(dst) or open(src).read() != open(dst).read():
                 shutil.copy(src, dst)
-        shutil.copy(os.path.join(REPO, 'Cargo.lock'), os.path.join(d, 'Cargo.lock'))
+        for lock in (os.path.join(REPO, 'Cargo.lock'), '/repo/Cargo.lock'):   # a scratch worktree has no (ignored) Cargo.lock of its own
+            if os.path.exists(lock):
+                shutil.copy(lock, os.path.join(d, 'Cargo.lock'))
+                break
         toml = ('[package]\nname = "slac_harness"\nversion = "0.1.0"\nedition = "2021"\n[workspace]\n[features]\n'
                 'zero_based_strings = ["slac/zero_based_strings"]\n[dependencies]\n'
                 'serde_json = { version = "1.0", features = ["float_roundtrip"] }\nregex-lite = "0.1"\n'
